@@ -350,3 +350,46 @@ def _compositions(ctx, S):
                 n += 1
                 check_skeleton(ctx, S, s, "compose:%s[%s]<%s>#%d" % (c, s.flagtag(), iname, len(seen)), allow_write_in_finally=("texttag" in iname))
     ctx.note("compositions_checked", n)
+
+
+_EXIT_EXAMPLE = '''
+class Bad:
+    def __exit__(self, a, b, c):
+        return self.pop()
+class Good:
+    def __exit__(self, a, b, c):
+        self.pop()
+        return False
+'''
+
+
+def _swallowing_exits(tree):
+    """__exit__ methods that can return something other than None / a false constant: a `with` block over such an object
+    discards the exception raised inside it"""
+    out = []
+    for c in ast.walk(tree):
+        if isinstance(c, ast.ClassDef):
+            for m in c.body:
+                if isinstance(m, ast.FunctionDef) and m.name == "__exit__":
+                    bad = [r for r in walk_func(m) if isinstance(r, ast.Return) and not (r.value is None or (isinstance(r.value, ast.Constant) and not r.value.value))]
+                    out.append((c, m, bad))
+    return out
+
+
+@rule("C13.exit-never-swallows", min_instances=1, props=["C05"])
+def exit_never_swallows(ctx):
+    """no context manager defined in the package can swallow an exception: every __exit__ returns None / False, so an exception raised inside `with` (user code of a def, a caller body) propagates unchanged"""
+    db = ctx.db
+    ex = _swallowing_exits(ast.parse(_EXIT_EXAMPLE))
+    ctx.require(len(ex) == 2 and len(ex[0][2]) == 1 and not ex[1][2], "self-example of the __exit__ matcher no longer matches")
+    ctx.ok("self-example", "", "matcher flags `return self.pop()` and accepts `return False` in the embedded example")
+    n = 0
+    for name in sorted(db.modules):
+        if name.startswith("testing"):
+            continue
+        for c, m, bad in _swallowing_exits(db.modules[name].tree):
+            n += 1
+            ctx.check(not bad, "exit:%s.%s" % (name, c.name), db.where(m),
+                      "%s.__exit__ returns `%s`: when that value is true the with statement suppresses the exception raised in its block - the exception no longer propagates to the caller of render / to the template's own try block" % (c.name, src(bad[0].value) if bad else ""),
+                      "__exit__ returns nothing / False")
+    ctx.note("exit_methods_in_package", n)
